@@ -78,7 +78,7 @@ def corr(ctx, binary, n):
     rc2, out2 = vlib.run_harness(ctx, binary, n2, extra="round2:" + CORPUS2)
     n3 = 70 if ctx.tier == "quick" else 1200
     rc3, out3 = vlib.run_harness(ctx, binary, n3, extra="round3:" + CORPUS3)
-    n5 = 48 if ctx.tier == "quick" else 600
+    n5 = 48 if ctx.tier == "quick" else 400
     rc5, out5 = vlib.run_harness(ctx, binary, n5, extra="round5:" + CORPUS5)
     if rc != 0 or rc2 != 0 or rc3 != 0 or rc5 != 0:
         ctx.violation({"obligation": "C16 harness run", "log": (out if rc != 0 else out2 if rc2 != 0 else out3 if rc3 != 0 else out5)[-3000:]}, False,
